@@ -421,13 +421,19 @@ func leastConns(upstreams []*Upstream) *Upstream {
 		return nil
 	}
 	var best []*Upstream
-	var bestReqs int
+	bestReqs := -1
 	for _, upstream := range upstreams {
+		// random_choose leaves the slots it did not fill nil
+		if upstream == nil {
+			continue
+		}
 		reqs := upstream.totalConns()
 		if reqs == 0 {
 			return upstream
 		}
-		if reqs <= bestReqs {
+		// if bestReqs was just initialized to -1
+		// we need to append upstream also
+		if reqs <= bestReqs || bestReqs == -1 {
 			bestReqs = reqs
 			best = append(best, upstream)
 		}
